@@ -80,7 +80,7 @@ func main() {
 	}
 	rep.Axioms = axSrcs
 	var obls []*vc.Obligation
-	for _, c := range e.SortedContracts() {
+	for _, c := range append(e.SortedContracts(), e.InitContracts()...) {
 		cps := vc.ContractProps(c)
 		if c.Trusted {
 			continue
@@ -97,7 +97,7 @@ func main() {
 		if *funcs != "" {
 			sel = false
 			for _, f := range strings.Split(*funcs, ",") {
-				if strings.Contains(c.Obj.FullName(), f) {
+				if c.Obj != nil && strings.Contains(c.Obj.FullName(), f) || c.Obj == nil && strings.Contains("init", f) {
 					sel = true
 				}
 			}
